@@ -16,7 +16,7 @@ EXPLANATION = (
     "only ever sits in one of its two buckets, which is what query/delete look at. R01-cuckoo-siblings / R01-quotient-shared-scan: "
     "query, insert and delete take their coordinates from the same start()/calc_quotient_remainder(). R01-compat: the HashSet "
     "impl maps insert/query/union to HashSet::insert(clone)/contains/extend(cloned). Survival across failed operations is C12."
-    " Also applied here (their violation is a false negative): C12's restore rules for every fallible insert/union, C14's delete accounting (exactly one copy removed), R01-bucket-range (hash() reduced modulo the power-of-two n_buckets), and for the quotient filter C13's structural rules (ring arithmetic, swap chain incl. its initial triple, placement flags, scan loop facts)."
+    " Also applied here (their violation is a false negative): C12's restore rules for every fallible insert/union, C14's delete accounting (exactly one copy removed), R01-bucket-range (hash() reduced modulo the power-of-two n_buckets), and for the quotient filter C13's structural rules (ring arithmetic, swap chain incl. its initial triple, placement flags, scan loop facts). C19's clear rules are run for the three filters: metadata surviving clear() (a continuation bit, a stored fingerprint) misplaces or hides elements of the next fill."
 )
 NOT_DECIDED = ("that scan/insert_internal of the quotient filter keep runs sorted and clusters intact under shifting and wrap-around "
                "(an inductive heap-shape invariant), and anything depending on actual hash values")
@@ -214,6 +214,12 @@ def run(ctx):
         sc = [(bi, t) for bi, t in iiq.calls() if t.callee_name() == "scan"]
         oks = len(sc) == 1 and [tb.operand(x, sc[0][0], len(iiq.blocks[sc[0][0]].stmts)) for x in sc[0][1].args][1:] == [("param", 2, "quotient"), ("param", 3, "remainder"), const(True)]
         ctx.check(oks, "R01-quotient-shared-scan", iiq.key, iiq, "insert_internal uses scan(quotient, remainder, true)", "insert_internal does not locate the slot through scan(quotient, remainder, true)")
+
+    # ---- a filter that is cleared and refilled: metadata surviving clear() (a stale continuation / shifted bit, a stale fingerprint)
+    # misplaces or hides elements inserted afterwards — C19's clear rules for the three filters
+    from .C19 import run_clear_rules
+    for adt_ in (BLOOM, CF, QF):
+        run_clear_rules(ctx, only_adt=adt_, floor=1)
 
     # ---- survival across failed insert / union: the C12 rule set, applied here because a fingerprint lost by a botched
     # rollback is a false negative for an element inserted earlier
